@@ -76,6 +76,8 @@ thread_local! {
     /// the connection task of the next `setup` stays subject to tokio's cooperative budget
     /// (see `Sim::spawn_constrained`)
     pub static SOLO_COOP: std::cell::Cell<bool> = const { std::cell::Cell::new(false) };
+    /// spurious polls of the connection task / the bridge in the next `setup` (see `Sim::spurious`)
+    pub static SOLO_SPURIOUS: std::cell::Cell<bool> = const { std::cell::Cell::new(false) };
 }
 
 /// policy of the peer's receive loop
@@ -99,6 +101,7 @@ pub fn setup(cfg: &EpCfg, opts: penguin_mux::config::Options, link_cfg: &LinkCfg
     link.lock().unwrap().backpressure_in_flush = link_cfg.bp_flush;
     let world = Rc::new(RefCell::new(LinkWorld::new(link.clone())));
     let mut sim = Sim::new(sched, weights, record, world.clone(), seq.clone());
+    sim.spurious = SOLO_SPURIOUS.with(|c| c.get());
     let rng = ScriptRng { vals: Arc::new(Mutex::new(cfg.ids.iter().copied().collect())), base: 1 << 28, ctr: 0 };
     let (m, t) = Multiplexor::new_detailed::<_, SimInstant>(SimWs { link: link.clone(), me: 0 }, opts, rng);
     let task_end = Rc::new(RefCell::new(None));
@@ -723,6 +726,9 @@ pub struct C13Plan {
     /// the connection task and the bridge stay subject to tokio's cooperative budget
     #[serde(default)]
     pub coop: bool,
+    /// the connection task and the bridge are now and then polled without having been woken
+    #[serde(default)]
+    pub spurious: bool,
 }
 fn local_byte(i: u64) -> u8 {
     pbyte(13, 0, i)
@@ -735,8 +741,10 @@ pub fn run_c13(plan: &C13Plan, sched: &Sched, record: bool) -> Outcome {
 async fn run_c13_async(plan: C13Plan, sched: Sched, record: bool) -> Outcome {
     let no_ack = Rc::new(RefCell::new(if plan.ack_mode == 0 { vec![] } else { vec![ID_BRG] }));
     SOLO_COOP.with(|c| c.set(plan.coop));
+    SOLO_SPURIOUS.with(|c| c.set(plan.spurious));
     let mut s = setup(&plan.ep, plan.ep.options(), &plan.link, plan.weights, &sched, record, RxPolicy { ack_pushes: true, ack_req_connects: None }, no_ack);
     SOLO_COOP.with(|c| c.set(false));
+    SOLO_SPURIOUS.with(|c| c.set(false));
     let (io, log) = ScriptIo::new(plan.rs.clone(), plan.ws.clone(), plan.fl.clone(), plan.sh.clone(), local_byte);
     let result: Rc<RefCell<Option<(u64, Result<(usize, usize), std::io::ErrorKind>)>>> = Default::default();
     {
@@ -982,6 +990,9 @@ async fn run_c13_async(plan: C13Plan, sched: Sched, record: bool) -> Outcome {
             o.violate("C13:unflushed-local-data", format!("the bridge is idle at quiescence with {} of {} bytes written to the local side never flushed (a buffering local writer would not have delivered them); {desc}", l.written.len() - l.flushed, l.written.len()));
         }
         o.probe("bridge-legitimately-pending", 1);
+    }
+    if s.sim.spurious_polls > 0 {
+        o.probe("fault:spurious-poll", s.sim.spurious_polls);
     }
     if l.read_err {
         o.probe("fault:local-read-error", 1);
